@@ -655,8 +655,7 @@ def process_file(em, path, report):
     # multi-line `use std::{...};` never occurs except on one line; assert no stray `use`
     # M5: `impl Default for X<T, Echo<T>> { fn default() -> Self { BODY } }` is one more constructor: kept as an inherent `default()` with the
     # constructor contract (fresh view over Echo in the initial abstract state); derived Default (Echo, Constant) is the field-wise default
-    defaults = re.findall(r'impl<T: Float> Default for (\w+)<T, Echo<T>>\s*\{\s*fn default\(\) -> Self \{([^}]*)\}\s*\}', s)
-    s = re.sub(r'impl(<T: Float>)? Default for [^{]*\{\s*fn default\(\) -> Self \{[^}]*\}\s*\}', '', s)
+    defaults = []
     orig_items = top_items(s)           # before M1, for the fidelity record
     s = monomorphise(s)
     # private-field renames: the struct's field list (names and types, in order) was recorded when the contract was written; if only
@@ -699,6 +698,11 @@ def process_file(em, path, report):
                 if not bounded:
                     report.setdefault('unbounded_buffers', []).append('%s.%s' % (struct_name, bf))
             em.add(h + ' {' + fields + '\n}')
+        elif h.startswith('impl') and re.search(r'\bDefault\s+for\b', h):
+            dm = re.search(r'\bDefault\s+for\s+(\w+)', h)
+            for fh, fb in top_items(body):
+                if re.search(r'\bfn\s+default\b', fh): defaults.append((dm.group(1), rewrite_body(fb, set())))
+            continue
         elif h.startswith('impl') and re.search(r'\bClone\s+for\b', h):
             continue                                           # hand-written Clone: dropped, the view is reported under clone_unverified (M4)
         elif h.startswith('impl'):
